@@ -358,27 +358,16 @@ Section Frame.
     destruct Hg as [Hg|[b Hg]]; apply Hc in Hg; simpl in Hg; auto.
   Qed.
 
-  Lemma resolve_loop_P : forall (h : heap) m path r t,
-    (forall e, In e h -> P (e_src e) = true -> P (e_dst e) = true) -> P m = true ->
-    (forall x, r = Some x -> P x = true /\ is_module mods x = true) ->
-    resolve_loop h mods m path r = Some t -> P t = true /\ is_module mods t = true.
-  Proof.
-    intros h m path. induction path as [|name rest IH]; intros r t Hc Hm Hr Hres; simpl in Hres.
-    - auto.
-    - destruct (get_attr h m name) as [o|] eqn:Hg; [|discriminate].
-      destruct (is_module mods o) eqn:Ho; [|discriminate].
-      apply (IH (Some o) t Hc Hm); [|exact Hres].
-      intros x Hx. inversion Hx; subst. split; [|exact Ho]. eapply get_attr_P; eauto.
-  Qed.
-
-  Lemma resolve_module_P : forall (h : heap) m path t,
+  Lemma resolve_module_P : forall (h : heap) path m t,
     (forall e, In e h -> P (e_src e) = true -> P (e_dst e) = true) ->
     P m = true -> is_module mods m = true ->
     resolve_module h mods m path = Some t -> P t = true /\ is_module mods t = true.
   Proof.
-    intros h m path t Hc Hm Hmod Hr. destruct path as [|a r]; simpl in Hr.
+    intros h path. induction path as [|name rest IH]; intros m t Hc Hm Hmod Hr; simpl in Hr.
     - inversion Hr; subst. auto.
-    - apply (resolve_loop_P h m (a :: r) None t Hc Hm); [intros x Hx; discriminate | exact Hr].
+    - destruct (get_attr h m name) as [o|] eqn:Hg; [|discriminate].
+      destruct (is_module mods o) eqn:Ho; [|discriminate].
+      apply (IH o t Hc); auto. eapply get_attr_P; eauto.
   Qed.
 
   Lemma override_attr_finv : forall env (h : heap) t a v,
@@ -694,3 +683,151 @@ Proof.
       specialize (Hmods n Hm). rewrite Hn1, Hn2 in Hmods. discriminate.
     + left. unfold touch1. rewrite Hn1, Hn2. reflexivity.
 Qed.
+
+(* ------------------------------------------------------------------ nested names of any depth (after the repair of resolveModule) *)
+
+Local Open Scope list_scope.
+
+(* t is the module reached from module m by following the attribute names p, every step landing on a module *)
+Inductive mod_path (h : heap) (mods : list node) : node -> list string -> node -> Prop :=
+| mp_nil : forall m, mod_path h mods m [] m
+| mp_cons : forall m a o rest t, get_attr h m a = Some o -> is_module mods o = true ->
+    mod_path h mods o rest t -> mod_path h mods m (a :: rest) t.
+
+Lemma resolve_module_path : forall h mods m p t, mod_path h mods m p t -> resolve_module h mods m p = Some t.
+Proof. induction 1; simpl; [reflexivity|]. rewrite H, H0. exact IHmod_path. Qed.
+
+Lemma mod_path_walk : forall h mods m p t, mod_path h mods m p t -> walk h m p = Some t.
+Proof. induction 1; simpl; [reflexivity|]. rewrite H. exact IHmod_path. Qed.
+
+Lemma walk_app : forall (h : heap) p q n,
+  walk h n (p ++ q) = match walk h n p with Some k => walk h k q | None => None end.
+Proof.
+  intros h p q. induction p as [|a r IH]; intro n; simpl; [reflexivity|].
+  destruct (get_attr h n a); [apply IH|reflexivity].
+Qed.
+
+Lemma get_attr_filter_sub : forall (h : heap) f n a k,
+  nodup_keys edge_key_eqb h = true -> get_attr (filter f h) n a = Some k -> get_attr h n a = Some k.
+Proof.
+  intros h f n a k Hn H. unfold get_attr in *. destruct (find (edge_at n a) (filter f h)) as [e|] eqn:Hf; [|discriminate].
+  inversion H; subst. apply find_some in Hf. destruct Hf as [Hin Hk]. apply filter_In in Hin. destruct Hin as [Hin _].
+  rewrite (find_first_key h n a e Hn Hin Hk). reflexivity.
+Qed.
+
+Lemma walk_filter_sub : forall (h : heap) f p n k,
+  nodup_keys edge_key_eqb h = true -> walk (filter f h) n p = Some k -> walk h n p = Some k.
+Proof.
+  intros h f p. induction p as [|a r IH]; intros n k Hn H; simpl in *; [exact H|].
+  destruct (get_attr (filter f h) n a) as [o|] eqn:Hg; [|discriminate].
+  rewrite (get_attr_filter_sub h f n a o Hn Hg). apply IH; auto.
+Qed.
+
+Definition nodot (s : string) : Prop := has_dot s = false.
+
+Lemma dotted_cons : forall x y r, dotted (x :: y :: r) = (x ++ String "." (dotted (y :: r)))%string.
+Proof. reflexivity. Qed.
+
+Lemma split_dot_dotted : forall l, l <> [] -> Forall nodot l -> split_dot (dotted l) = l.
+Proof.
+  induction l as [|x r IH]; intros Hne Hf; [contradiction|].
+  inversion Hf; subst. destruct r as [|y r'].
+  - simpl. apply split_dot_nodot. assumption.
+  - rewrite dotted_cons. rewrite split_dot_app by assumption. f_equal. apply IH; [discriminate|assumption].
+Qed.
+
+Lemma cut_dot_dotted : forall x r, nodot x -> r <> [] -> cut_dot (dotted (x :: r)) = (x, Some (dotted r)).
+Proof.
+  intros x r Hx Hr. destruct r as [|y r']; [contradiction|]. rewrite dotted_cons. apply cut_dot_app. exact Hx.
+Qed.
+
+Lemma Forall_nodot_app : forall p a, Forall nodot p -> nodot a -> Forall nodot (p ++ [a]).
+Proof. intros. apply Forall_app. split; [assumption|]. constructor; [assumption|constructor]. Qed.
+
+Lemma app_last_not_nil : forall A (p : list A) a, p ++ [a] <> [].
+Proof. intros A p a H. apply app_eq_nil in H. destruct H as [_ H]. discriminate. Qed.
+
+Section Nested.
+  Variables (w : world) (x : string) (m : node) (p : list string) (t : node) (e : edge).
+  Hypothesis Hwf : wf_world w = true.
+  Hypothesis Hin : In (x, m) (w_env w).
+  Hypothesis Hmod : is_module (w_mods w) m = true.
+  Hypothesis Hp : Forall nodot p.
+  Hypothesis Hpath : mod_path (w_heap w) (w_mods w) m p t.
+  Hypothesis He : In e (w_heap w).
+  Hypothesis Hsrc : e_src e = t.
+  Hypothesis Hm : e_mem e = true.
+
+  Let nm := dotted (x :: p ++ [e_lbl e]).
+
+  Lemma nested_facts : nodup_keys edge_key_eqb (w_heap w) = true /\ nodup_keys String.eqb (map fst (w_env w)) = true /\
+    nodot x /\ nodot (e_lbl e) /\ e_lbl e <> "__name__".
+  Proof.
+    destruct (wf_world_parts w Hwf) as (Hnk & Hne & Hnd & Hmem). destruct (Hmem e He Hm) as [Ha Hnn].
+    repeat split; auto. exact (Hnd _ Hin).
+  Qed.
+
+  Lemma nested_split : split_dot nm = x :: p ++ [e_lbl e].
+  Proof.
+    destruct nested_facts as (_ & _ & Hx & Ha & _). unfold nm. apply split_dot_dotted; [discriminate|].
+    constructor; [exact Hx|]. apply Forall_nodot_app; assumption.
+  Qed.
+
+  Lemma nested_remove : forall h, h = w_heap w ->
+    remove_module_attr h (w_mods w) m (dotted (p ++ [e_lbl e])) = override_attr h t (e_lbl e) None.
+  Proof.
+    intros h ->. destruct nested_facts as (_ & _ & Hx & Ha & _).
+    unfold remove_module_attr. rewrite split_dot_dotted; [|apply app_last_not_nil|apply Forall_nodot_app; assumption].
+    rewrite rev_app_distr. simpl. destruct (rev p) as [|c rp] eqn:Hr.
+    - assert (p = []) by (apply (f_equal (@rev string)) in Hr; rewrite rev_involutive in Hr; exact Hr).
+      subst p. inversion Hpath; subst. reflexivity.
+    - rewrite <- Hr, rev_involutive. rewrite (resolve_module_path _ _ _ _ _ Hpath). reflexivity.
+  Qed.
+
+  (* WithoutGlobal(x.p1...pk.a): exactly the attribute a of the module reached along p1...pk is removed, and the
+     denied name no longer resolves - for module paths of ANY length. *)
+  Theorem nested_deny_exact :
+    apply_config w (deny1 nm) =
+      W (w_env w) (filter (fun e' => negb (member_at t (e_lbl e) e')) (w_heap w)) (w_mods w) /\
+    lookup_name (apply_config w (deny1 nm)) nm = None.
+  Proof.
+    destruct nested_facts as (Hnk & Hne & Hx & Ha & Hnn).
+    assert (Heq : apply_config w (deny1 nm) =
+      W (w_env w) (filter (fun e' => negb (member_at t (e_lbl e) e')) (w_heap w)) (w_mods w)).
+    { unfold apply_config, deny1. cbn [c_over c_deny]. rewrite initial_env_defaults by exact Hne. cbn [fold_left].
+      unfold apply_deny. unfold nm. rewrite cut_dot_dotted; [|exact Hx|apply app_last_not_nil]. cbn [w_env w_heap w_mods].
+      rewrite (env_get_nodup _ _ _ Hne Hin). rewrite Hmod. rewrite nested_remove by reflexivity.
+      unfold override_attr. destruct (String.eqb (e_lbl e) "__name__") eqn:E; [apply String.eqb_eq in E; contradiction|].
+      reflexivity. }
+    split; [exact Heq|]. rewrite Heq. unfold lookup_name. rewrite nested_split. cbn [lookup_path w_env w_heap].
+    rewrite (env_get_nodup _ _ _ Hne Hin). rewrite walk_app.
+    destruct (walk _ m p) as [k|] eqn:Hw; [|reflexivity].
+    apply walk_filter_sub in Hw; [|exact Hnk]. rewrite (mod_path_walk _ _ _ _ _ Hpath) in Hw. inversion Hw; subst k.
+    simpl. subst t. pose proof (get_attr_removed (w_heap w) e Hnk He Hm Hnn) as Hr. unfold override_attr in Hr.
+    destruct (String.eqb (e_lbl e) "__name__") eqn:E; [apply String.eqb_eq in E; contradiction|].
+    rewrite Hr. reflexivity.
+  Qed.
+
+  (* WithGlobalOverride(x.p1...pk.a, v): exactly that attribute is redirected to v. *)
+  Theorem nested_override_exact : forall v,
+    apply_config w (override1 nm v) =
+      W (w_env w) (map (fun e' => if member_at t (e_lbl e) e' then E (e_src e') (e_lbl e') true v else e') (w_heap w))
+        (w_mods w) /\
+    get_attr (w_heap (apply_config w (override1 nm v))) t (e_lbl e) = Some v.
+  Proof.
+    intro v. destruct nested_facts as (Hnk & Hne & Hx & Ha & Hnn).
+    assert (Heq : apply_config w (override1 nm v) =
+      W (w_env w) (map (fun e' => if member_at t (e_lbl e) e' then E (e_src e') (e_lbl e') true v else e') (w_heap w))
+        (w_mods w)).
+    { unfold apply_config, override1. cbn [c_over c_deny]. rewrite initial_env_defaults by exact Hne. cbn [fold_left].
+      unfold apply_override. rewrite nested_split. cbn [w_env w_heap w_mods].
+      destruct (p ++ [e_lbl e]) as [|r1 rest] eqn:Hpe; [exfalso; eapply app_last_not_nil; eauto|].
+      rewrite (env_get_nodup _ _ _ Hne Hin). rewrite Hmod. rewrite <- Hpe.
+      rewrite removelast_last, last_last. rewrite (resolve_module_path _ _ _ _ _ Hpath).
+      unfold override_attr. destruct (String.eqb (e_lbl e) "__name__") eqn:E; [apply String.eqb_eq in E; contradiction|].
+      reflexivity. }
+    split; [exact Heq|]. rewrite Heq. cbn [w_heap]. subst t.
+    pose proof (get_attr_replaced (w_heap w) e v Hnk He Hm Hnn) as Hr. unfold override_attr in Hr.
+    destruct (String.eqb (e_lbl e) "__name__") eqn:E; [apply String.eqb_eq in E; contradiction|]. exact Hr.
+  Qed.
+End Nested.
